@@ -349,7 +349,9 @@ func (e *Engine) call(fr *frame, st *State, c *ast.CallExpr, k func(st *State, r
 	}
 	argExprs = append(argExprs, c.Args...)
 	e.evalList(fr, st, argExprs, func(st *State, vs []Val) {
-		if fs := e.specOf(fn); fs != nil && fr.ver != nil && fr.ver.modular {
+		if fs := e.specOf(fn); fs != nil && fr.ver != nil && fr.ver.modular && !returnsIterator(fn) {
+			// (a function handing out a storage iterator is a thin wrapper around storage.Find: callers inline it, its
+			// own contract states which snapshot the iterator walks)
 			if !fr.ver.explicitFaults || fs.Nofault {
 				e.applyContract(fr, st, fn, decl, fs, vs, k)
 				return
@@ -358,6 +360,16 @@ func (e *Engine) call(fr *frame, st *State, c *ast.CallExpr, k func(st *State, r
 		}
 		e.inline(fr, st, fn, decl, vs, k)
 	})
+}
+
+func returnsIterator(fn *types.Func) bool {
+	res := fn.Type().(*types.Signature).Results()
+	for i := 0; i < res.Len(); i++ {
+		if strings.HasSuffix(res.At(i).Type().String(), "interop/iterator.Iterator") {
+			return true
+		}
+	}
+	return false
 }
 
 func specKey(fn *types.Func) string {
@@ -518,24 +530,24 @@ func (e *Engine) assign(fr *frame, st *State, lhs ast.Expr, v Val) {
 		}
 		st.vars[obj] = e.name(st, v)
 	case *ast.SelectorExpr:
-		base, ok := l.X.(*ast.Ident)
+		// x.f = v and nested forms x.f.g = v: the variable gets a new struct value with that one field replaced
+		var path []string
+		var x ast.Expr = l
+		for {
+			sel, ok := x.(*ast.SelectorExpr)
+			if !ok {
+				break
+			}
+			path = append([]string{sel.Sel.Name}, path...)
+			x = sel.X
+		}
+		base, ok := x.(*ast.Ident)
 		if !ok {
 			panic("unsupported assignment target")
 		}
 		obj := info.Uses[base]
 		cur := st.vars[obj]
-		fs := e.Structs[cur.Ty.Name]
-		parts := make([]*sx.T, len(fs))
-		for j, f := range fs {
-			if f.Name == l.Sel.Name {
-				parts[j] = v.T
-			} else if cur.T.Head() == "mk"+cur.Ty.Name {
-				parts[j] = cur.T.L[j+1]
-			} else {
-				parts[j] = sx.App(cur.Ty.Name+"_"+f.Name, cur.T)
-			}
-		}
-		st.vars[obj] = e.name(st, mkS(sx.App("mk"+cur.Ty.Name, parts...), cur.Ty.Name))
+		st.vars[obj] = e.name(st, e.setField(cur, path, v))
 	case *ast.IndexExpr:
 		base, ok := l.X.(*ast.Ident)
 		if !ok {
@@ -562,6 +574,38 @@ func (e *Engine) assign(fr *frame, st *State, lhs ast.Expr, v Val) {
 	default:
 		panic(fmt.Sprintf("unsupported assignment target %T", lhs))
 	}
+}
+
+// setField returns the struct value cur with the field reached by path replaced by v.
+func (e *Engine) setField(cur Val, path []string, v Val) Val {
+	if cur.Ty.K != spec.KStruct {
+		panic("field assignment on a non-struct value")
+	}
+	fs := e.Structs[cur.Ty.Name]
+	parts := make([]*sx.T, len(fs))
+	found := false
+	for j, f := range fs {
+		var old *sx.T
+		if cur.T.Head() == "mk"+cur.Ty.Name {
+			old = cur.T.L[j+1]
+		} else {
+			old = sx.App(cur.Ty.Name+"_"+f.Name, cur.T)
+		}
+		switch {
+		case f.Name != path[0]:
+			parts[j] = old
+		case len(path) == 1:
+			parts[j] = v.T
+			found = true
+		default:
+			parts[j] = e.setField(Val{TV: spec.TV{T: old, Ty: f.Ty}}, path[1:], v).T
+			found = true
+		}
+	}
+	if !found {
+		panic("no field " + path[0] + " in " + cur.Ty.Name)
+	}
+	return mkS(sx.App("mk"+cur.Ty.Name, parts...), cur.Ty.Name)
 }
 
 func (e *Engine) switchStmt(fr *frame, st *State, s *ast.SwitchStmt, k func(st *State)) {
@@ -1011,7 +1055,15 @@ func (e *Engine) assignedIn(info *types.Info, n ast.Node) (vars map[types.Object
 					}
 				}
 				if sel, ok := l.(*ast.SelectorExpr); ok {
-					if id, ok := sel.X.(*ast.Ident); ok {
+					var x ast.Expr = sel
+					for {
+						s2, ok := x.(*ast.SelectorExpr)
+						if !ok {
+							break
+						}
+						x = s2.X
+					}
+					if id, ok := x.(*ast.Ident); ok {
 						if o := info.Uses[id]; o != nil {
 							vars[o] = true
 						}
